@@ -178,9 +178,9 @@ pub const PROPS: &[Prop] = &[
         id: "C05",
         quick: 12000,
         thorough: 200_000,
-        rule: "mutex family: 2-5 lockers (threads and coroutines mixed) with lock{0-2 schedule points inside}/try_lock/yield/sleep programs on one may::sync::Mutex, optional canceller actor cancelling coroutine lockers at generated times, generated schedule. Non-trivial = at least one pre-emption AND two lock() calls of different actors overlapped (contention). Distinct = distinct hash of (program, config, schedule). A quarter of the cases come from the condvar family (ticket protocol with cancellation): Mutex::lock with the cancel ignored is only reachable through the re-lock inside Condvar::wait.",
+        rule: "mutex family: 2-5 lockers (threads and coroutines mixed) with lock{0-2 schedule points inside}/try_lock/yield/sleep programs on one may::sync::Mutex, optional canceller actor cancelling coroutine lockers at generated times, generated schedule. Non-trivial = at least one pre-emption AND two lock() calls of different actors overlapped (contention). Distinct = distinct hash of (program, config, schedule). A third of the cases come from the condvar family (ticket protocol with cancellation): Mutex::lock with the cancel ignored is only reachable through the re-lock inside Condvar::wait.",
         units: &[
-            Unit { fam: "mutex", label: "mutex", share: 3, strategy: mutex::strategy },
+            Unit { fam: "mutex", label: "mutex", share: 2, strategy: mutex::strategy },
             // Mutex::lock with the cancel ignored is only reachable through Condvar::wait's re-lock
             Unit { fam: "condvar", label: "condvar-relock", share: 1, strategy: condvar::strategy },
         ],
